@@ -251,3 +251,41 @@ def best_of(chk, candidates, rule_fn):
     if best is None:
         raise first_err
     best.commit()
+
+
+class VStr(str):
+    """whitespace-free source text of a function whose `in` test also looks at the text of the function's normal forms (sa/canon.py):
+    a statement that occurs in a view of the function is a statement of the function"""
+    _views = ()
+
+    def __contains__(self, item):
+        if str.__contains__(self, item):
+            return True
+        return any(item in v for v in self._views)
+
+
+def vstr(e) -> str:
+    """drop-in for the modules' `_norm`: functions of the analysed repository get the view-aware text"""
+    from ..index import LAST_REPO, parents
+    base = unparse(e).replace(" ", "").replace("\n", "")
+    if not isinstance(e, ast.FunctionDef) or LAST_REPO[0] is None or getattr(e, "_rel", None) is not None:
+        return base
+    repo = LAST_REPO[0]
+    try:
+        m = repo.module_of(e)
+    except Exception:
+        return base
+    ci = None
+    for anc in parents(e):
+        if isinstance(anc, ast.ClassDef):
+            ci = next((c for c in m.classes.values() if c.node is anc), None)
+            break
+        if isinstance(anc, ast.FunctionDef):
+            return base              # nested function: no views
+    try:
+        V = views(repo, ci, e, rel=m.rel)
+    except Exception:
+        return base
+    out = VStr(base)
+    out._views = tuple(unparse(v).replace(" ", "").replace("\n", "") for v in V.views[1:])
+    return out
